@@ -30,7 +30,7 @@ func shrink(p *Prop, b *Batch, r *Result, lanes int, budget time.Duration) *Resu
 		res := w.Do(Request{ID: 1, Engine: r.Engine, Seed: r.Seed, Tape: tp, Replay: true, Knobs: b.Knobs})
 		if res.Crashed {
 			kind, frame := crashFrame(res.Stderr)
-			res.V = &Violation{Oracle: "no-crash", Sig: p.ID + "/" + kind + "/" + frame, Msg: "worker process died during the run:\n" + tail(res.Stderr, 1500)}
+			res.V = &Violation{Oracle: "no-crash", Sig: p.ID + "/" + kind + "/" + frame, Msg: "worker process died during the run:\n" + headOf(res.Stderr, 1800)}
 			res.Tape = tp
 			res.Engine = r.Engine
 		}
@@ -144,7 +144,7 @@ func shrink(p *Prop, b *Batch, r *Result, lanes int, budget time.Duration) *Resu
 		w.stop()
 		if res.Crashed {
 			kind, frame := crashFrame(res.Stderr)
-			res.V = &Violation{Oracle: "no-crash", Sig: p.ID + "/" + kind + "/" + frame, Msg: "worker process died during the run:\n" + tail(res.Stderr, 1500)}
+			res.V = &Violation{Oracle: "no-crash", Sig: p.ID + "/" + kind + "/" + frame, Msg: "worker process died during the run:\n" + headOf(res.Stderr, 1800)}
 			res.Tape = cur.Tape
 			res.Engine = r.Engine
 		}
